@@ -2,7 +2,8 @@
      evidence/verify.go   verify, VerifyDuplicateVote, VerifyLightClientAttack, validateABCIEvidence,
                           getSignedHeader
      types/evidence.go    NewDuplicateVoteEvidence (vote ordering), ValidateBasic (both kinds),
-                          GetByzantineValidators, ConflictingHeaderIsInvalid
+                          GetByzantineValidators, ConflictingHeaderIsInvalid,
+                          LightClientAttackEvidence.ABCI
      evidence/pool.go     NewPool (restart), AddEvidence, CheckEvidence, Update,
                           ReportConflictingVotes / processConsensusBuffer, markEvidenceAsCommitted,
                           removeExpiredPendingEvidence, isExpired, PendingEvidence / listEvidence
@@ -19,7 +20,12 @@
 
    The pool is modelled WITH two repairs (see fixes/F4-*.diff, fixes/F24-*.diff); the booleans
    [fx4] / [fx24] of [step_gen] switch a repair off so that the unrepaired behaviour can be
-   exhibited (Props.v: C11_unrepaired_*_refuted). *)
+   exhibited (Props.v: C11_unrepaired_*_refuted).  GetByzantineValidators is modelled WITH the
+   repair F57 (fixes/F57-*.diff: the equivocation branch counts a validator only when BOTH commits
+   carry its signature FOR the block and reports it as a member of the validator set of the
+   evidence's height; the unrepaired code counted every slot that is not absent, i.e. also
+   precommits for nil, whose signatures nobody verifies); [byz_validators_gen false] is
+   the unrepaired function (Props.v: C11_unrepaired_F57_refuted). *)
 From Coq Require Import List ZArith NArith Bool.
 From TM Require Import Generated.Consts.
 Import ListNotations.
@@ -52,7 +58,11 @@ Record dve := {
   d_sig_a : bool; d_sig_b : bool
 }.
 
-Record csig := { cs_flag : Z; cs_addr : N }.
+(* one CommitSig of the conflicting commit.  [cs_ok] is an oracle the CODE never reads (it is used
+   by the specification, Spec.v): the slot's address is the address of the validator with the
+   same index in the conflicting validator set and its signature verifies under that
+   validator's key over the commit's sign bytes for that index (false for an absent slot) *)
+Record csig := { cs_flag : Z; cs_addr : N; cs_ok : bool }.
 
 Record lca := {
   l_common : Z;                       (* CommonHeight *)
@@ -101,7 +111,7 @@ Record header := {
   h_time : Z; h_hash : N;
   h_vh : N; h_nvh : N; h_ch : N; h_ah : N; h_lrh : N;
   h_has_commit : bool;                 (* LoadBlockCommit(h) != nil *)
-  h_round : Z; h_absent : list bool    (* its commit: round, per signature Absent() *)
+  h_round : Z; h_flags : list Z        (* its commit: round, per signature BlockIDFlag *)
 }.
 
 Record env := {
@@ -157,18 +167,29 @@ Definition val_sort (l : list valinfo) : list valinfo := fold_right val_insert [
 
 Definition opt_list {A} (o : option A) : list A := match o with Some x => [x] | None => [] end.
 
-(* GetByzantineValidators *)
-Definition byz_validators (l : lca) (common_vals : valset) (t : header) : list valinfo :=
+(* GetByzantineValidators.  [fx57] = true: the repaired equivocation branch (ForBlock() on both
+   sides, the validator looked up in the validator set of the evidence's height and skipped when
+   unknown, as the lunatic branch does); false: the unrepaired one (!Absent() on both sides,
+   looked up in the conflicting validator set; an unknown address yields a nil *Validator there,
+   which validateABCIEvidence dereferences - not modelled, [opt_list] drops it). *)
+Definition byz_validators_gen (fx57 : bool) (l : lca) (common_vals : valset) (t : header)
+  : list valinfo :=
   if header_invalid l t then
     val_sort (flat_map (fun s => if cs_flag s =? block_id_flag_commit
                                  then opt_list (vs_get common_vals (cs_addr s)) else [])
                        (l_sigs l))
   else if h_round t =? l_round l then
-    val_sort (flat_map (fun '(s, absent_b) =>
-                          if (cs_flag s =? block_id_flag_absent) || absent_b then []
-                          else opt_list (vs_get (l_cvals l) (cs_addr s)))
-                       (combine (l_sigs l) (h_absent t)))
+    val_sort (flat_map (fun '(s, fb) =>
+                          if fx57 then
+                            if (cs_flag s =? block_id_flag_commit) && (fb =? block_id_flag_commit)
+                            then opt_list (vs_get common_vals (cs_addr s)) else []
+                          else
+                            if negb (cs_flag s =? block_id_flag_absent)
+                               && negb (fb =? block_id_flag_absent)
+                            then opt_list (vs_get (l_cvals l) (cs_addr s)) else [])
+                       (combine (l_sigs l) (h_flags t)))
   else [].
+Definition byz_validators := byz_validators_gen true.
 
 Definition valinfo_eqb (a b : valinfo) : bool :=
   (va_addr a =? va_addr b)%N && (va_power a =? va_power b).
@@ -188,6 +209,13 @@ Definition validate_abci (l : lca) (common_vals : valset) (t : header) : bool :=
   | _, None => match vals with [] => true | _ => false end
   | _, Some b => vals_eqb vals b
   end.
+
+(* LightClientAttackEvidence.ABCI(): one abci.Evidence per listed validator
+   (type, validator address, validator power, height, time, total voting power) *)
+Definition abci_lca_type : Z := 2.    (* abci.EvidenceType_LIGHT_CLIENT_ATTACK *)
+Definition abci_of (l : lca) : list (Z * N * Z * Z * Z * Z) :=
+  map (fun v => (abci_lca_type, va_addr v, va_power v, l_common l, l_time l, l_total l))
+      (match l_byz l with Some b => b | None => [] end).
 
 (* VerifyLightClientAttack; headers come with the height they were loaded for *)
 Definition verify_lca (l : lca) (common trusted : Z * header) (common_vals : valset) : bool :=
